@@ -35,6 +35,13 @@ def _execute(mod, script):
     try:
         res = mod.execute(script)
     except Exception as e:
+        if type(e).__name__ == 'BaseNotApplicable':
+            # building the trusted starting state uses the repo's own ledger functions on a valid block: they raised
+            res = Result()
+            res.violate(mod.PROP, '%s/valid-block-raises-when-applied' % mod.PROP,
+                        'applying a valid reward-only block with several outputs to an empty ledger raised %s' % e)
+            res.digest = 'base-not-applicable'
+            return res.as_dict()
         if type(e).__name__ != 'WorldNotBuilt':
             raise
         # the simulated world could not be set up because the code under test refused a valid starting state (e.g. the
